@@ -44,6 +44,39 @@ Definition worker_path (late : bool) (st0 st1 : rstate) (rest : text) : option p
   let st := if late then st1 else st0 in
   option_map fst (get_paths (r_base st) (r_cwd st) rest).
 
+(* ---- histories of requests on one connection: CWD/CDUP and re-logins (USER alone for a password-less or anonymous
+   account, USER + PASS otherwise) between permission-checked requests.  The decorator looks the entry up in the table
+   of connection.user as it is NOW. *)
+Inductive sreq : Type :=
+| SBetween (b : between)
+| SReq (flags : list flag) (rest : text).
+
+Fixpoint reqs_run (st : rstate) (h : list sreq) : list (option (pp_outcome * perm)) :=
+  match h with
+  | [] => []
+  | SBetween b :: h' => reqs_run (between_step st b) h'
+  | SReq f r :: h' => option_map (fun x => fst x) (request f st r) :: reqs_run st h'
+  end.
+
+(* independent bookkeeping: (table of the user logged in now, stack of names of the working directory) *)
+Definition spec_between (ps : list perm * list text) (b : between) : list perm * list text :=
+  match b with
+  | BNav (Cwd s true) => (fst ps, normalize (snd ps) s)
+  | BNav (Cdup true) => (fst ps, rev (fold_left spec_step (removelast (snd ps)) []))
+  | BNav _ => ps
+  | BLogin _ h p => (p, parts h)
+  | BOther => ps
+  end.
+
+Fixpoint reqs_spec (ps : list perm * list text) (h : list sreq) : list (option (pp_outcome * perm)) :=
+  match h with
+  | [] => []
+  | SBetween b :: h' => reqs_spec (spec_between ps b) h'
+  | SReq f r :: h' =>
+      let cur := nearest (fst ps) (mkp 1 (normalize (snd ps) r)) in
+      Some (path_permissions f cur, cur) :: reqs_spec ps h'
+  end.
+
 (* ---- harness interface ---- *)
 Definition between_of_sx (s : sx) : between :=
   match list_of_sx s with
@@ -69,5 +102,17 @@ Definition run_permxfer (fn : Z) (a : sx) : sx :=
                     sx_of_option (fun p => sx_of_text (to_str p)) (worker_path (bool_of_sx (nth_sx 6 a)) st0 st1 rest);
                     sx_of_text (to_str (r_cwd st1))])
       end
+  | 44 => (* perms, base, home, history [[0, between] | [1, flags, rest]] -> decisions *)
+      let st0 := mkrs (parse (text_of_sx (nth_sx 1 a))) (parse (text_of_sx (nth_sx 2 a)))
+                      (map perm_of_sx (list_of_sx (nth_sx 0 a))) in
+      let ev (s : sx) := match list_of_sx s with
+                         | [I 0; b] => SBetween (between_of_sx b)
+                         | [I 1; f; r] => SReq (map flag_of_sx (list_of_sx f)) (text_of_sx r)
+                         | _ => SBetween BOther
+                         end in
+      sx_ok (L (map (fun o => match o with
+                              | Some (d, cur) => L [sx_of_outcome d; I (p_id cur)]
+                              | None => L []
+                              end) (reqs_run st0 (map ev (list_of_sx (nth_sx 3 a))))))
   | _ => run_perm fn a
   end.
